@@ -32,10 +32,10 @@ import (
 func init() {
 	run.Register(&run.Check{
 		ID: "C17", Title: "Layout succeeds with finite geometry for every compilable diagram",
-		LevelText:        "Exploration: generated compilable diagrams (gen.Diagram: containers ≤4 deep, all shapes, directions, label/icon positions, dimensions, 3d/multiple, grids, sequence diagrams, constant nears, class/sql_table, markdown/code/latex, arrowheads; half of them with hostile names: backtick, ${, quotes, backslashes, newlines, dots, arrows, RTL/astral/combining), a systematic hostile-symbol × position matrix and compilable repository scripts are laid out by the real pipeline with dagre and with ELK in crash-isolated workers; the monitor refutes on panic, worker death, layout/export/render error, nil or non-finite positions, negative or non-finite sizes, routes with fewer than two finite points.",
+		LevelText:        "Exploration: generated compilable diagrams (gen.Diagram: containers ≤4 deep, all shapes, directions, label/icon positions, dimensions, 3d/multiple, grids, sequence diagrams, constant nears, class/sql_table, markdown/code/latex, arrowheads; half of them with hostile names: backtick, ${, quotes, backslashes, newlines, dots, arrows, RTL/astral/combining), a systematic hostile-symbol × position matrix, boards consisting only of constant-near shapes (every subset of the 8 constants up to size 3) and compilable repository scripts are laid out by the real pipeline with dagre and with ELK in crash-isolated workers; the monitor refutes on panic, worker death, layout/export/render error, nil or non-finite positions, negative or non-finite sizes, routes with fewer than two finite points.",
 		Technique:        "runtime monitoring: totality oracle (panic / error / worker death) plus finiteness predicates over the laid-out graph and exported diagram, both bundled engines",
 		DesignRef:        "§4 C17",
-		Rule:             "cases: gen.Diagram programs (default, hostile, elk-only features, engine-undeclared features), hostile-symbol matrix, compilable corpus scripts; each under dagre or ELK; distinct by sha256(engine+text); non-trivial when the program compiled, layout ran on ≥2 objects and every finiteness predicate was evaluated",
+		Rule:             "cases: gen.Diagram programs (default, hostile, elk-only features, engine-undeclared features), hostile-symbol matrix, near-only boards (every root shape a constant near: all subsets of the 8 constants up to size 3 + larger random sets, as leaves/containers/grids/sequence diagrams, as root board and as layer), compilable corpus scripts; each under dagre or ELK; distinct by sha256(engine+text); non-trivial when the program compiled, layout ran on ≥2 objects and every finiteness predicate was evaluated",
 		PanicIsViolation: true, HangIsViolation: true, CPUBudget: 300, Chunk: 4, MinNontrivial: 50,
 		Gen:  genC17,
 		Exec: execC17,
@@ -123,6 +123,9 @@ var (
 func c17ErrClass(msg string) string {
 	if i := strings.IndexByte(msg, '\n'); i >= 0 {
 		msg = msg[:i]
+	}
+	if i := strings.Index(msg, "has invalid position with infinity value"); i >= 0 {
+		msg = msg[:i] + "has invalid position with infinity value" // drop the coordinates (sign / Inf vary)
 	}
 	msg = c17QuoteRe.ReplaceAllString(msg, "Q")
 	msg = c17NumRe.ReplaceAllString(msg, "N")
